@@ -3,7 +3,11 @@
 From Coq Require Import Bool List NArith ZArith Lia.
 From M Require RegProofs.
 From M Require Tie.
+From M Require CmdLayer.
+From M Require C12Latch.
+From M Require CmdModel.
 From M Require RegModel.
+From M Require RegProofs.
 Import ListNotations.
 
 Module T_stb_coherent. Import RegProofs. Local Open Scope bool_scope. Local Open Scope Z_scope.
@@ -31,4 +35,63 @@ Theorem C11_tie_stb_bits :
 Proof. exact (@Tie.tie_stb_bits). Qed.
 End T_tie_stb_bits.
 Definition C11_tie_stb_bits := @T_tie_stb_bits.C11_tie_stb_bits.
+
+Module T_commands_coherent. Import CmdLayer. Local Open Scope bool_scope. Local Open Scope Z_scope.
+Import RegModel RegProofs C12Latch CmdModel. Local Open Scope N_scope.
+Theorem C11_commands_coherent :
+  forall qc acts,
+  (0 < qc)%Z -> Forall act_legal acts -> Inv (fold_left act_step acts (init qc)).
+Proof. exact (@CmdLayer.commands_coherent). Qed.
+End T_commands_coherent.
+Definition C11_commands_coherent := @T_commands_coherent.C11_commands_coherent.
+
+Module T_stbq_reports_summaries. Import CmdLayer. Local Open Scope bool_scope. Local Open Scope Z_scope.
+Import RegModel RegProofs C12Latch CmdModel. Local Open Scope N_scope.
+Theorem C11_stbq_reports_summaries :
+  forall qc acts v,
+  (0 < qc)%Z -> Forall act_legal acts ->
+  let s := fold_left act_step acts (init qc) in
+  snd (run_cmd s KStbQ) = Some v ->
+  fst (run_cmd s KStbQ) = s /\
+  N.testbit v 5 = negb (N.land (rg s ESR) (rg s ESE) =? 0) /\
+  N.testbit v 7 = negb (N.land (rg s OPER) (rg s OPERE) =? 0) /\
+  N.testbit v 3 = negb (N.land (rg s QUES) (rg s QUESE) =? 0) /\
+  N.testbit v 2 = negb (qlen s =? 0)%Z /\
+  N.testbit v 6 = negb (N.land (N.ldiff v 64) (N.ldiff (rg s SRE) 64) =? 0).
+Proof. exact (@CmdLayer.stbq_reports_summaries). Qed.
+End T_stbq_reports_summaries.
+Definition C11_stbq_reports_summaries := @T_stbq_reports_summaries.C11_stbq_reports_summaries.
+
+Module T_event_query_clears. Import CmdLayer. Local Open Scope bool_scope. Local Open Scope Z_scope.
+Import RegModel RegProofs C12Latch CmdModel. Local Open Scope N_scope.
+Theorem C11_event_query_clears :
+  forall s c e k,
+  event_cmd c e k -> Inv s ->
+  let '(s', r) := run_cmd s c in
+  r = Some (rg s e) /\ rg s' e = 0 /\ N.testbit (rg s' STB) k = false /\ Inv s'.
+Proof. exact (@CmdLayer.event_query_clears). Qed.
+End T_event_query_clears.
+Definition C11_event_query_clears := @T_event_query_clears.C11_event_query_clears.
+
+Module T_cls_clears. Import CmdLayer. Local Open Scope bool_scope. Local Open Scope Z_scope.
+Import RegModel RegProofs C12Latch CmdModel. Local Open Scope N_scope.
+Theorem C11_cls_clears :
+  forall s,
+  Inv s ->
+  let s' := fst (run_cmd s KCls) in
+  rg s' ESR = 0 /\ rg s' OPER = 0 /\ rg s' QUES = 0 /\ qlen s' = 0%Z /\
+  N.testbit (rg s' STB) 5 = false /\ N.testbit (rg s' STB) 7 = false /\ N.testbit (rg s' STB) 3 = false /\ N.testbit (rg s' STB) 2 = false /\
+  Inv s'.
+Proof. exact (@CmdLayer.cls_clears). Qed.
+End T_cls_clears.
+Definition C11_cls_clears := @T_cls_clears.C11_cls_clears.
+
+Module T_cmd_history_runs. Import CmdLayer. Local Open Scope bool_scope. Local Open Scope Z_scope.
+Import RegModel RegProofs C12Latch CmdModel. Local Open Scope N_scope.
+Theorem C11_cmd_history_runs :
+  let s := fold_left act_step [AOp (OPush (-113)%Z); ACmd (KEse 32); ACmd (KSre 32); ACmd KStbQ] (init 4) in
+  rg s STB = 100 /\ snd (run_cmd s KEsrQ) = Some 32 /\ rg (fst (run_cmd s KEsrQ)) STB = 4 /\ rg (fst (run_cmd s KCls)) STB = 0.
+Proof. exact (@CmdLayer.cmd_history_runs). Qed.
+End T_cmd_history_runs.
+Definition C11_cmd_history_runs := @T_cmd_history_runs.C11_cmd_history_runs.
 
